@@ -101,10 +101,10 @@ def gen_case(rng, tier):
     # custom kernel_fn (public argument): the default RBF re-implemented by the user (must change nothing), or a
     # genuinely different kernel exp(-|x-y|_1); the Coq model is fed with that kernel's matrix
     kernel = None
-    if kind != "sites" and rng.random() < 0.12:
-        kernel = rng.choice(["rbf", "laplace"])
+    if kind != "sites" and rng.random() < 0.2:
+        kernel = rng.choice(["rbf", "laplace", "poly", "poly"])      # poly: a kernel whose diagonal k(x,x) is NOT constant
     proj = None
-    if kind != "sites" and rng.random() < 0.25:
+    if kind != "sites" and kernel != "poly" and rng.random() < 0.25:
         d2 = rng.randint(1, 3)
         proj = [[rng.choice([-1, -0.5, 0, 0.5, 1, 2]) for _ in range(d2)] for _ in range(d)]
     npmax = min(n, {"greedy": 5, "dash": 7, "mmd": 14}[method])
@@ -112,15 +112,21 @@ def gen_case(rng, tier):
     nproto = min(nproto, npmax)
     bs = rng.choice([1, 2, 3, max(1, n - 1), n, n + 1, None, rng.randint(1, n + 1), rng.randint(2, max(2, n // 2 + 1)),
                      rng.randint(2, max(2, n // 2 + 1)), rng.randint(2, max(2, n // 2 + 1))])
+    if kernel == "poly" and n >= 3:
+        # several batches of prototypes in the local search, with a non-constant kernel diagonal
+        bs = rng.choice([1, 2, 2, 3])
+        nproto = min(npmax, max(bs + 1, nproto))
     eff = n if bs is None else min(bs, n)
     others = [b for b in range(1, n + 1) if b != eff]
     bs2 = rng.choice(others) if others else None
     k = rng.randint(1, nproto)
     nq = rng.randint(1, 3)
     Q = [[dy(rng, -2, 2, 8) + (16.0 * rng.randint(-1, 1) if kind == "sites" else 0.0) for _ in range(d)] for _ in range(nq)]
+    distance = rng.choice([None, None, "euclidean", "manhattan", "chebyshev"])
+    if kernel == "poly" and rng.random() < 0.85:
+        distance = None        # the kernel-induced distance needs k(p,p) of each prototype: only interesting off a constant diagonal
     return dict(method=method, kind=kind, X=X, gamma=gamma, kernel=kernel, proj=proj, np=nproto, bs=bs, bs2=bs2, k=k, Q=Q,
-                labels=[rng.randint(0, 9) for _ in range(n)],
-                distance=rng.choice([None, None, "euclidean", "manhattan", "chebyshev"]))
+                labels=[rng.randint(0, 9) for _ in range(n)], distance=distance)
 
 
 def generate(rng, tier):
@@ -223,10 +229,19 @@ def kernel64(case, diff, gamma32):
     return np.exp(-gamma32 * (diff ** 2).sum(-1))
 
 
+def kernel_xy(case, A, B, gamma32):
+    """pairwise kernel matrix (float64) between the rows of A and the rows of B"""
+    if case.get("kernel") == "poly":
+        return (1.0 + (A @ B.T) / 8.0) ** 2
+    return kernel64(case, A[:, None, :] - B[None, :, :], gamma32)
+
+
 def kernel_callable(case, gamma32):
     import tensorflow as tf
     if case.get("kernel") == "laplace":
         return lambda a, b: tf.exp(-tf.reduce_sum(tf.abs(a[:, None, :] - b[None, :, :]), axis=-1))
+    if case.get("kernel") == "poly":
+        return lambda a, b: tf.square(1.0 + tf.matmul(a, b, transpose_b=True) / 8.0)
     g = tf.constant(gamma32, dtype=tf.float32)
     return lambda a, b: tf.exp(-g * tf.reduce_sum(tf.square(a[:, None, :] - b[None, :, :]), axis=-1))
 
@@ -240,7 +255,9 @@ def distances64(case, Q, P, gamma32):
     """float64 distance matrix queries x prototypes for the configured distance"""
     diff = Q[:, None, :] - P[None, :, :]
     if case["distance"] is None:          # sqrt(k(x,x) - 2 k(x,p) + k(p,p)) with the object's kernel
-        return np.sqrt(np.maximum(2.0 - 2.0 * kernel64(case, diff, gamma32), 0.0))
+        kqq = np.diag(kernel_xy(case, Q, Q, gamma32))[:, None]
+        kpp = np.diag(kernel_xy(case, P, P, gamma32))[None, :]
+        return np.sqrt(np.maximum(kqq - 2.0 * kernel_xy(case, Q, P, gamma32) + kpp, 0.0))
     if case["distance"] == "euclidean":
         return np.sqrt((diff ** 2).sum(-1))
     if case["distance"] == "manhattan":
@@ -324,7 +341,8 @@ def run_impl(case):
     # documented kernel: exp(-gamma |x-y|^2), gamma default 1 / nb_features (of the search space)
     gamma32 = float(np.float32(case["gamma"] if case["gamma"] is not None else 1.0 / Xp.shape[1]))
     sq = ((Xp[:, None, :] - Xp[None, :, :]) ** 2).sum(-1)
-    res["kernel_dev"] = float(np.max(np.abs(kernel64(case, Xp[:, None, :] - Xp[None, :, :], gamma32) - Kimpl)))
+    Kdoc = kernel_xy(case, Xp, Xp, gamma32)
+    res["kernel_dev"] = float(np.max(np.abs(Kdoc - Kimpl) / np.maximum(1.0, np.abs(Kdoc))))
     # the tables of the search method, when they are exposed
     cm, dg = getattr(sm, "kernel_col_means", None), getattr(sm, "kernel_diag", None)
     res["col_means"] = None if cm is None else np.asarray(cm).astype(float).tolist()
@@ -392,12 +410,14 @@ def coq_term(case, res):
     K = core.cqlist2(res["K"])
     bs, nproto, ncmp = res["bs_eff"], case["np"], g["ncmp"]
     tolw = core.cq(TOL_W[case["method"]])
+    kmax = max(1.0, float(np.max(np.abs(np.array(res["K"])))))      # kernels with values above 1 (poly): float32 errors scale with them
+    tol_t, tol_d = TOL_T * kmax, TOL_D * kmax
     cmpt = res["col_means"] is not None and res["diag"] is not None
     parts = [core.cbool(res["kernel_dev"] <= TOL_K), core.cbool(res["protos_are_cases"]),
              core.cbool(res["local_examples_are_cases"]),
              f"check_global {cmethod(case)} {core.cq(EPS32)} {K} {core.cnat(bs)} {core.cnat(nproto)} {core.cnat(ncmp)} "
              f"{cpairs(res['indices'])} {core.cbool(g['cmpw'])} {tolw} {core.cqlist(res['weights'])} "
-             f"{core.cbool(cmpt)} {core.cq(TOL_T)} {core.cqlist2(res['col_means'] or [])} {core.cqlist2(res['diag'] or [])}"]
+             f"{core.cbool(cmpt)} {core.cq(tol_t)} {core.cqlist2(res['col_means'] or [])} {core.cqlist2(res['diag'] or [])}"]
     # Model = Spec on this case (tables = dense column means / diagonal; batched selection = dense greedy)
     parts.append(f"check_spec {cmethod(case)} {core.cq(EPS32)} {K} {core.cnat(bs)} {core.cnat(nproto)}")
     if res["second"] is not None:
@@ -413,7 +433,7 @@ def coq_term(case, res):
     if g["local"]:
         parts.append(f"check_local {cmethod(case)} {core.cq(EPS32)} {K} {core.cnat(bs)} {core.cnat(nproto)} "
                      f"{core.cnat(case['k'])} {core.cnatlist(case['labels'])} {core.cnatlist(res['labels'])} "
-                     f"{core.cqlist2(res['D'])} {core.cq(TOL_D)} "
+                     f"{core.cqlist2(res['D'])} {core.cq(tol_d)} "
                      f"{core.cl([cpairs(r) for r in res['local_indices']])} "
                      f"{core.cl([core.cnatlist(r) for r in res['local_labels']])} {core.cqlist2(res['local_distances'])}")
     return " && ".join(f"({p})" for p in parts)
